@@ -12,6 +12,7 @@ import fam_merge
 import fam_query
 import fam_fsstore
 import fam_layout
+import fam_builder
 
 
 class WritePathFamily:
@@ -63,7 +64,14 @@ class LayoutFamily:
     evidence = staticmethod(fam_layout.evidence)
 
 
-FAMILIES = [WritePathFamily, SearchFamily, MinMaxFamily, MergeFamily, QueryFamily, FSStoreFamily, LayoutFamily]
+class BuilderFamily:
+    NAME = "builder"
+    PROPS = fam_builder.PROPS
+    compute = staticmethod(fam_builder.compute)
+    evidence = staticmethod(fam_builder.evidence)
+
+
+FAMILIES = [WritePathFamily, SearchFamily, MinMaxFamily, MergeFamily, QueryFamily, FSStoreFamily, LayoutFamily, BuilderFamily]
 
 # families whose monitors also judge predicates of a property owned by another family: their
 # violations of that property are reported by the property's check as well
